@@ -108,6 +108,8 @@ def _weights(ck: Checker, prog: Program, cls):
     accepted = [sp.Function("len")(T.sym("self.azimuths")), sp.Function("len")(T.sym("self.hvsrs")), T.sym("self.n_azimuths")]
     if naz is not None and any(equal(naz[1], a) for a in accepted):
         ck.ok("C11.R1", fq, f"{naz[0]} = {naz[1]}")
+    elif naz is None:
+        pass        # no local holds the count: it is read off the weight formula below
     else:
         ck.violation("C11.R1", fq, "number of azimuths", f"the azimuth count used for the weights is {naz[1] if naz else None}, "
                      f"not the number of azimuths of the object (len(self.azimuths))", loc=m.loc())
@@ -177,10 +179,10 @@ def _weights(ck: Checker, prog: Program, cls):
     detail = str(val)
     if getattr(val, "func", None) == sp.Function("repeat") and isinstance(val.args[0], sp.Tuple) and len(val.args[0]) == 1:
         w, r = val.args[0][0], val.args[1]
-        naz_v = naz[1] if naz else sp.Symbol("?")
-        for nv in (nvalid_want, nvalid_alt):
-            if equal(w, 1 / (naz_v * nv)) and equal(r, nv):
-                good = True
+        for naz_v in ([naz[1]] if naz else accepted):
+            for nv in (nvalid_want, nvalid_alt):
+                if equal(w, 1 / (naz_v * nv)) and equal(r, nv):
+                    good = True
         detail = f"weight {w} repeated {r} times"
     if good:
         ck.ok("C11.R1", fq, "per azimuth: 1/(n_azimuths*n_valid) repeated n_valid times", detail=detail)
